@@ -240,6 +240,15 @@ func (c *V1) Do(op Op) (out Outcome) {
 	case OpPut:
 		in := &v1ddb.PutItemInput{TableName: aws.String(op.Table), Item: ItemToV1(op.Item), ConditionExpression: condExpr(op),
 			ExpressionAttributeNames: v1Names(op.Names), ExpressionAttributeValues: ItemToV1(op.Values)}
+		for a, v := range op.Expected {
+			if in.Expected == nil {
+				in.Expected = map[string]*v1ddb.ExpectedAttributeValue{}
+			}
+			in.Expected[a] = &v1ddb.ExpectedAttributeValue{Value: ItemToV1(val.Item{"x": v})["x"]}
+		}
+		if op.RetVal != "" {
+			in.ReturnValues = aws.String(op.RetVal)
+		}
 		_, err := c.callPutItem(in)
 		return fin(err)
 	case OpGet:
@@ -247,6 +256,8 @@ func (c *V1) Do(op Op) (out Outcome) {
 		in.AttributesToGet = v1Strs(op.AttrsToGet)
 		if op.Consistent {
 			in.ConsistentRead = aws.Bool(true)
+		} else if op.ConsistentFalse {
+			in.ConsistentRead = aws.Bool(false)
 		}
 		res, err := c.callGetItem(in)
 		o := fin(err)
@@ -261,6 +272,12 @@ func (c *V1) Do(op Op) (out Outcome) {
 	case OpUpdate:
 		in := &v1ddb.UpdateItemInput{TableName: aws.String(op.Table), Key: ItemToV1(op.Key), UpdateExpression: updExpr(op),
 			ConditionExpression: condExpr(op), ExpressionAttributeNames: v1Names(op.Names), ExpressionAttributeValues: ItemToV1(op.Values)}
+		for a, v := range op.Expected {
+			if in.Expected == nil {
+				in.Expected = map[string]*v1ddb.ExpectedAttributeValue{}
+			}
+			in.Expected[a] = &v1ddb.ExpectedAttributeValue{Value: ItemToV1(val.Item{"x": v})["x"]}
+		}
 		res, err := c.callUpdateItem(in)
 		o := fin(err)
 		if err == nil {
@@ -276,6 +293,15 @@ func (c *V1) Do(op Op) (out Outcome) {
 			ExpressionAttributeNames: v1Names(op.Names), ExpressionAttributeValues: ItemToV1(op.Values)}
 		if op.RetOld {
 			in.ReturnValues = aws.String("ALL_OLD")
+		}
+		if op.RetVal != "" {
+			in.ReturnValues = aws.String(op.RetVal)
+		}
+		for a, v := range op.Expected {
+			if in.Expected == nil {
+				in.Expected = map[string]*v1ddb.ExpectedAttributeValue{}
+			}
+			in.Expected[a] = &v1ddb.ExpectedAttributeValue{Value: ItemToV1(val.Item{"x": v})["x"]}
 		}
 		res, err := c.callDeleteItem(in)
 		o := fin(err)
@@ -297,6 +323,8 @@ func (c *V1) Do(op Op) (out Outcome) {
 		in.AttributesToGet = v1Strs(op.AttrsToGet)
 		if op.Consistent {
 			in.ConsistentRead = aws.Bool(true)
+		} else if op.ConsistentFalse {
+			in.ConsistentRead = aws.Bool(false)
 		}
 		in.Select = strp(op.Select)
 		if op.Limit > 0 {
@@ -325,6 +353,8 @@ func (c *V1) Do(op Op) (out Outcome) {
 		in.AttributesToGet = v1Strs(op.AttrsToGet)
 		if op.Consistent {
 			in.ConsistentRead = aws.Bool(true)
+		} else if op.ConsistentFalse {
+			in.ConsistentRead = aws.Bool(false)
 		}
 		in.Select = strp(op.Select)
 		if op.Limit > 0 {
@@ -448,6 +478,13 @@ func (c *V1) Do(op Op) (out Outcome) {
 		return fin(v1client.AddIndex(c.C, op.Table, op.Ix.Name, op.Ix.Hash, op.Ix.Range))
 	case OpClearTable:
 		return fin(v1client.ClearTable(c.C, op.Table))
+	case OpSetMetrics:
+		m := map[string][]*v1ddb.ItemCollectionMetrics{}
+		if op.Table != "" {
+			m[op.Table] = []*v1ddb.ItemCollectionMetrics{{SizeEstimateRangeGB: []*float64{aws.Float64(0)}}}
+		}
+		v1client.SetItemCollectionMetrics(c.C, m)
+		return Outcome{Class: ClsOK}
 	case OpEmulate:
 		v1client.EmulateFailure(c.C, v1client.FailureCondition(op.Fail))
 		return Outcome{Class: ClsOK}
